@@ -1,11 +1,13 @@
 import PymocaVerif.Lemmas.ExprGrammar
 import PymocaVerif.Lemmas.ExprLiterals
+import PymocaVerif.Lemmas.ExprSpec
 import PymocaVerif.Generated.ExprTable
 /-!
 # C03 — parsed expressions follow Modelica precedence and literal values
 
 Theorems about `PymocaVerif.Model.ExprGrammar`: the table-driven model of the generated parser's rule
-`expr` (ANTLR's precedence climbing), the listener's tree building, the Modelica-grammar printer.
+`expr` (ANTLR's precedence climbing), the listener's tree building, the Modelica-grammar printer; and about
+`PymocaVerif.Model.ExprSpec`, the specification's own grammar as a recursive-descent reference reader.
 `Generated/ExprTable.lean` is rewritten from `/repo` on every run; `table_ok`/`atn_ok` tie it to the table
 the theorems are about.  All statements are for trees of any depth and any redundant parenthesisation.
 -/
@@ -106,6 +108,50 @@ theorem value_preserved {V : Type} (I : Interp V) (hI : I.SignLaw) (e : E) :
   obtain ⟨f0, h⟩ := parse_mprint e
   refine ⟨f0, fun f hf => ?_⟩
   rw [h f hf, Option.map_some, eval_expected I hI]
+
+/-- **The yardstick is the specification's grammar itself**: the recursive-descent reader of B.2.7
+(`logical_expression` … `primary`, one case per nonterminal) reads the Modelica print of `e` as `e` (up to `paren`
+nodes).  So "the source tree" in the theorems above *is* what Modelica's precedence and associativity make of the
+text, not a convention of the printer. -/
+theorem spec_reads_source (e : E) : ∃ fuel, ∀ f, fuel ≤ f → specParse f (mprint e) = some (strip e) := by
+  obtain ⟨f0, h⟩ := spec_reads_mprint e
+  exact ⟨f0, fun f hf => smonoTop h hf⟩
+
+example : specParse 60 (mprint sample) = some (strip sample) := by rfl
+
+/-- **The property, against the specification's reading of the text**: on the Modelica text of any expression
+tree, however parenthesised, pymoca's parser (extracted table) and the specification's grammar both succeed and
+the two trees have the same value. -/
+theorem agrees_with_specification {V : Type} (I : Interp V) (hI : I.SignLaw) (e : E) :
+    ∃ fuel, ∀ f, fuel ≤ f →
+      ∃ t s, parseTop (Tbl.ofData exprTable) f (mprint e) = some t ∧ specParse f (mprint e) = some s ∧
+        eval I t = eval I s := by
+  obtain ⟨f1, h1⟩ := parse_mprint e
+  obtain ⟨f2, h2⟩ := spec_reads_source e
+  refine ⟨max f1 f2, fun f hf => ⟨expected e, strip e, h1 f ?_, h2 f ?_, ?_⟩⟩
+  · exact Nat.le_trans (Nat.le_max_left _ _) hf
+  · exact Nat.le_trans (Nat.le_max_right _ _) hf
+  · rw [eval_expected I hI, eval_strip]
+
+/-- Parenthesisation is irrelevant: two trees that differ only in redundant parentheses give trees of the same
+value. -/
+theorem parenthesisation_irrelevant {V : Type} (I : Interp V) (hI : I.SignLaw) (e e' : E)
+    (h : strip e = strip e') : eval I (expected e) = eval I (expected e') := by
+  rw [eval_expected I hI, eval_expected I hI, ← eval_strip I e, ← eval_strip I e', h]
+
+example : strip sample = strip (.paren (.paren sample)) := by rfl
+
+/-- The tree the listener builds has no `paren` node (a parenthesised single expression is collapsed). -/
+theorem expected_paren_free (e : E) : noParen (expected e) = true :=
+  noParen_strip _
+
+example : noParen sample = false := by rfl
+
+/-- No two different readings share a text: Modelica texts with the same tokens give the same tree. -/
+theorem print_unambiguous (e e' : E) (h : mprint e = mprint e') : expected e = expected e' :=
+  mprint_injective e e' h
+
+example : mprint sample = mprint sample := rfl
 
 /-- the rationals with the usual operations (Booleans as 0/1; anything uninterpreted as 0) -/
 def ratInterp (ρ : Atom → Rat) : Interp Rat where
